@@ -8,6 +8,8 @@ From CG Require Import Model.LoopMem.
 
 From CG Require Import Model.LoopMet Model.MetricsSrc.
 
+From CG Require Import Model.FiltLoop.
+
 
 (* calgebra/interval.py: Interval.finite_start *)
 Definition g_finite_start (self : ivl) : Z :=
@@ -2317,3 +2319,249 @@ Definition g_gcsa_add_many {IVLX : Type} {MD : Type} {WR : Type} {EXC : Type} (a
 (* calgebra/gcsa.py: Calendar._add_many_batch *)
 Definition g_gcsa_add_many_batch_results {IVLX : Type} {RESD : Type} {WR : Type} (results_get_or_missing : RESD -> Z -> WR) (results : RESD) (events_list : list IVLX) : list WR :=
   (map (fun i => (results_get_or_missing results i)) (zrange (Z.of_nat (length events_list)))).
+
+(* calgebra/properties.py: Operator.apply *)
+Definition g_operator_apply {PROP : Type} {VAL : Type} (prop_apply : PROP -> ivl -> VAL) (self_left : (PROP + VAL)) (self_right : (PROP + VAL)) (self_operator : (VAL -> VAL -> res bool)) (event : ivl) : (res bool) :=
+  let left_val := (match self_left with | inl self_left_p => (prop_apply self_left_p event) | inr self_left_v => self_left_v end) in
+  let right_val := (match self_right with | inl self_right_p => (prop_apply self_right_p event) | inr self_right_v => self_right_v end) in
+  (self_operator left_val right_val).
+
+(* calgebra/properties.py: Property.__ge__ *)
+Definition g_prop_ge {PROP : Type} {VAL : Type} {FILT : Type} (mk_operator : (PROP + VAL) -> (PROP + VAL) -> (VAL -> VAL -> res bool) -> FILT) (op_ge : (VAL -> VAL -> res bool)) (self : PROP) (other : (PROP + VAL)) : FILT :=
+  (mk_operator (inl self) other op_ge).
+
+(* calgebra/properties.py: Property.__le__ *)
+Definition g_prop_le {PROP : Type} {VAL : Type} {FILT : Type} (mk_operator : (PROP + VAL) -> (PROP + VAL) -> (VAL -> VAL -> res bool) -> FILT) (op_le : (VAL -> VAL -> res bool)) (self : PROP) (other : (PROP + VAL)) : FILT :=
+  (mk_operator (inl self) other op_le).
+
+(* calgebra/properties.py: Property.__gt__ *)
+Definition g_prop_gt {PROP : Type} {VAL : Type} {FILT : Type} (mk_operator : (PROP + VAL) -> (PROP + VAL) -> (VAL -> VAL -> res bool) -> FILT) (op_gt : (VAL -> VAL -> res bool)) (self : PROP) (other : (PROP + VAL)) : FILT :=
+  (mk_operator (inl self) other op_gt).
+
+(* calgebra/properties.py: Property.__lt__ *)
+Definition g_prop_lt {PROP : Type} {VAL : Type} {FILT : Type} (mk_operator : (PROP + VAL) -> (PROP + VAL) -> (VAL -> VAL -> res bool) -> FILT) (op_lt : (VAL -> VAL -> res bool)) (self : PROP) (other : (PROP + VAL)) : FILT :=
+  (mk_operator (inl self) other op_lt).
+
+(* calgebra/properties.py: Property.__eq__ *)
+Definition g_prop_eq {PROP : Type} {VAL : Type} {FILT : Type} (mk_operator : (PROP + VAL) -> (PROP + VAL) -> (VAL -> VAL -> res bool) -> FILT) (op_eq : (VAL -> VAL -> res bool)) (self : PROP) (other : (PROP + VAL)) : FILT :=
+  (mk_operator (inl self) other op_eq).
+
+(* calgebra/properties.py: Property.__ne__ *)
+Definition g_prop_ne {PROP : Type} {VAL : Type} {FILT : Type} (mk_operator : (PROP + VAL) -> (PROP + VAL) -> (VAL -> VAL -> res bool) -> FILT) (op_ne : (VAL -> VAL -> res bool)) (self : PROP) (other : (PROP + VAL)) : FILT :=
+  (mk_operator (inl self) other op_ne).
+
+(* calgebra/properties.py: Duration.apply *)
+Definition g_duration_apply {FL : Type} (float_inf : FL) (float_div : Z -> Z -> FL) (self_scale : Z) (event : ivl) : FL :=
+  if ((is_none (st event)) || (is_none (en event))) then
+    float_inf
+  else
+    (float_div ((ozd (en event)) - (ozd (st event))) self_scale).
+
+(* calgebra/properties.py: Duration.__init__ *)
+Definition g_duration_init (self_scale : Z) (unit_ : dunit) : Z :=
+  let self_scale := (match unit_ with USeconds => 1 | UMinutes => 60 | UHours => 3600 | UDays => 86400 end) in
+  self_scale.
+
+(* calgebra/properties.py: Start.apply *)
+Definition g_start_apply (event : ivl) : Z :=
+  (fstart event).
+
+(* calgebra/properties.py: End.apply *)
+Definition g_end_apply (event : ivl) : Z :=
+  (fend event).
+
+(* calgebra/properties.py: _normalize_collection *)
+Definition g_normalize_collection {VAL : Type} {SET : Type} (is_strlike : VAL -> bool) (set_of_iterable : VAL -> option SET) (prop_val : VAL) : res SET :=
+  if (is_strlike prop_val) then
+    (RRaise TypeError)
+  else
+    match (set_of_iterable prop_val) with
+    | Some v_ =>
+      (RDone v_)
+    | None =>
+      (RRaise TypeError)
+    end.
+
+(* calgebra/properties.py: one_of *)
+Definition g_one_of {PROP : Type} {VAL : Type} {FILT : Type} {SET : Type} {ITER : Type} (mk_operator : (PROP + VAL) -> (PROP + VAL) -> (VAL -> VAL -> res bool) -> FILT) (op_contains : (VAL -> VAL -> res bool)) (py_set : ITER -> SET) (val_of_set : SET -> VAL) (property : PROP) (values : ITER) : FILT :=
+  (mk_operator (inr (val_of_set (py_set values))) (inl property) op_contains).
+
+(* calgebra/properties.py: has_any *)
+Definition g_has_any_check {VAL : Type} {SET : Type} (is_strlike : VAL -> bool) (set_of_iterable : VAL -> option SET) (set_inter : SET -> SET -> SET) (set_truthy : SET -> bool) (value_set : SET) (prop_val : VAL) (_ : VAL) : res bool :=
+  res_bind (g_normalize_collection is_strlike set_of_iterable prop_val) (fun r1_ =>
+  let prop_collection := r1_ in
+  (RDone (set_truthy (set_inter value_set prop_collection)))).
+
+(* calgebra/properties.py: has_any *)
+Definition g_has_any {PROP : Type} {VAL : Type} {FILT : Type} {SET : Type} {ITER : Type} (mk_operator : (PROP + VAL) -> (PROP + VAL) -> (VAL -> VAL -> res bool) -> FILT) (py_none : VAL) (py_set : ITER -> SET) (is_strlike : VAL -> bool) (set_of_iterable : VAL -> option SET) (set_inter : SET -> SET -> SET) (set_truthy : SET -> bool) (property : PROP) (values : ITER) : FILT :=
+  let value_set := (py_set values) in
+  let check := (g_has_any_check is_strlike set_of_iterable set_inter set_truthy value_set) in
+  (mk_operator (inl property) (inr py_none) check).
+
+(* calgebra/properties.py: has_all *)
+Definition g_has_all_check {VAL : Type} {SET : Type} (is_strlike : VAL -> bool) (set_of_iterable : VAL -> option SET) (set_issubset : SET -> SET -> bool) (value_set : SET) (prop_val : VAL) (_ : VAL) : res bool :=
+  res_bind (g_normalize_collection is_strlike set_of_iterable prop_val) (fun r1_ =>
+  let prop_collection := r1_ in
+  (RDone (set_issubset value_set prop_collection))).
+
+(* calgebra/properties.py: has_all *)
+Definition g_has_all {PROP : Type} {VAL : Type} {FILT : Type} {SET : Type} {ITER : Type} (mk_operator : (PROP + VAL) -> (PROP + VAL) -> (VAL -> VAL -> res bool) -> FILT) (py_none : VAL) (py_set : ITER -> SET) (is_strlike : VAL -> bool) (set_of_iterable : VAL -> option SET) (set_issubset : SET -> SET -> bool) (property : PROP) (values : ITER) : FILT :=
+  let value_set := (py_set values) in
+  let check := (g_has_all_check is_strlike set_of_iterable set_issubset value_set) in
+  (mk_operator (inl property) (inr py_none) check).
+
+(* calgebra/properties.py: field *)
+Definition g_field_name_apply {VAL : Type} {NAME : Type} (py_getattr : ivl -> NAME -> VAL) (accessor : NAME) (event : ivl) : VAL :=
+  (py_getattr event accessor).
+
+(* calgebra/properties.py: field *)
+Definition g_field_getter_apply {VAL : Type} (accessor : ivl -> VAL) (event : ivl) : VAL :=
+  (accessor event).
+
+(* calgebra/properties.py: field *)
+Definition g_field {PROP : Type} {VAL : Type} {NAME : Type} (prop_of_apply : (ivl -> VAL) -> PROP) (py_getattr : ivl -> NAME -> VAL) (accessor : (NAME + (ivl -> VAL))) : PROP :=
+  match accessor with
+  | inl accessor_s =>
+    (prop_of_apply (g_field_name_apply py_getattr accessor_s))
+  | inr accessor_f =>
+    (prop_of_apply (g_field_getter_apply accessor_f))
+  end.
+
+(* calgebra/core.py: Filter.__or__ *)
+Definition g_filter_or {TL : Type} {FILT : Type} (mk_or : FILT -> FILT -> FILT) (self : FILT) (other : (TL + FILT)) : res FILT :=
+  match other with
+  | inl other_t =>
+    (RRaise TypeError)
+  | inr other_f =>
+    (RDone (mk_or self other_f))
+  end.
+
+(* calgebra/core.py: Filter.__and__ *)
+Definition g_filter_and {TL : Type} {FILT : Type} (mk_filtered : TL -> FILT -> TL) (mk_and : FILT -> FILT -> FILT) (self : FILT) (other : (TL + FILT)) : (TL + FILT) :=
+  match other with
+  | inl other_t =>
+    (inl (mk_filtered other_t self))
+  | inr other_f =>
+    (inr (mk_and self other_f))
+  end.
+
+(* calgebra/core.py: Or.apply *)
+Definition g_or_apply {FILT : Type} (filter_apply : FILT -> ivl -> res bool) (self_filters : list FILT) (event : ivl) : (res bool) :=
+  (any_r (fun f => (filter_apply f event)) self_filters).
+
+(* calgebra/core.py: And.apply *)
+Definition g_and_apply {FILT : Type} (filter_apply : FILT -> ivl -> res bool) (self_filters : list FILT) (event : ivl) : (res bool) :=
+  (all_r (fun f => (filter_apply f event)) self_filters).
+
+(* calgebra/core.py: Timeline.__or__ *)
+Definition g_timeline_or {TL : Type} {FILT : Type} (mk_union : TL -> TL -> TL) (self : TL) (other : (TL + FILT)) : res TL :=
+  match other with
+  | inl other_t =>
+    (RDone (mk_union self other_t))
+  | inr other_f =>
+    (RRaise TypeError)
+  end.
+
+(* calgebra/core.py: Timeline.__and__ *)
+Definition g_timeline_and {TL : Type} {FILT : Type} (mk_filtered : TL -> FILT -> TL) (mk_intersection : TL -> TL -> TL) (self : TL) (other : (TL + FILT)) : TL :=
+  match other with
+  | inl other_t =>
+    (mk_intersection self other_t)
+  | inr other_f =>
+    (mk_filtered self other_f)
+  end.
+
+(* calgebra/core.py: Timeline.__sub__ *)
+Definition g_timeline_sub {TL : Type} (mk_difference : TL -> TL -> TL) (self : TL) (other : TL) : TL :=
+  (mk_difference self other).
+
+(* calgebra/core.py: Timeline.__invert__ *)
+Definition g_timeline_invert {TL : Type} (mk_complement : TL -> TL) (self : TL) : TL :=
+  (mk_complement self).
+
+(* calgebra/core.py: _flatten_sources *)
+Definition g_flatten_sources_f {TL : Type} (is_cls : TL -> bool) (tl_sources : TL -> list TL) (sources : list TL) : list TL :=
+  let flattened := (@nil TL) in
+  iter_for
+    (fun flattened source =>
+      if (is_cls source) then
+        let flattened := (app flattened (tl_sources source)) in
+        (SCont flattened)
+      else
+        let flattened := (flattened ++ [source]) in
+        (SCont flattened))
+    (fun flattened =>
+      flattened)
+    flattened sources.
+
+(* calgebra/core.py: Union.__init__ *)
+Definition g_union_init_f {TL : Type} (is_union : TL -> bool) (tl_sources : TL -> list TL) (self_sources : list TL) (sources : list TL) : (list TL) :=
+  let self_sources := (g_flatten_sources_f is_union tl_sources sources) in
+  self_sources.
+
+(* calgebra/core.py: Intersection.__init__ *)
+Definition g_intersection_init_f {TL : Type} (is_intersection : TL -> bool) (tl_sources : TL -> list TL) (self_sources : list TL) (sources : list TL) : (list TL) :=
+  let self_sources := (g_flatten_sources_f is_intersection tl_sources sources) in
+  self_sources.
+
+(* calgebra/properties.py: Operator.__init__ *)
+Definition g_operator_init {PROP : Type} {VAL : Type} (self_left : (PROP + VAL)) (self_right : (PROP + VAL)) (self_operator : (VAL -> VAL -> res bool)) (left_ : (PROP + VAL)) (right_ : (PROP + VAL)) (operator : (VAL -> VAL -> res bool)) : ((PROP + VAL) * (PROP + VAL) * (VAL -> VAL -> res bool)) :=
+  let self_left := left_ in
+  let self_right := right_ in
+  let self_operator := operator in
+  (self_left, self_right, self_operator).
+
+(* calgebra/core.py: Or.__init__ *)
+Definition g_or_init {FILT : Type} (self_filters : list FILT) (filters : list FILT) : (list FILT) :=
+  let self_filters := filters in
+  self_filters.
+
+(* calgebra/core.py: And.__init__ *)
+Definition g_and_init {FILT : Type} (self_filters : list FILT) (filters : list FILT) : (list FILT) :=
+  let self_filters := filters in
+  self_filters.
+
+(* calgebra/core.py: Filtered.__init__ *)
+Definition g_filtered_init_f {TL : Type} {FILT : Type} (self_source : TL) (self_filter : FILT) (source : TL) (filter_ : FILT) : (TL * FILT) :=
+  let self_source := source in
+  let self_filter := filter_ in
+  (self_source, self_filter).
+
+(* calgebra/core.py: Difference.__init__ *)
+Definition g_difference_init_f {TL : Type} (self_source : TL) (self_subtractors : list TL) (source : TL) (subtractors : list TL) : (TL * list TL) :=
+  let self_source := source in
+  let self_subtractors := subtractors in
+  (self_source, self_subtractors).
+
+(* calgebra/core.py: Complement.__init__ *)
+Definition g_complement_init_f {TL : Type} (self_source : TL) (source : TL) : TL :=
+  let self_source := source in
+  self_source.
+
+(* calgebra/core.py: Timeline._is_mask *)
+Definition g_is_mask_base  : bool :=
+  false.
+
+(* calgebra/core.py: _SolidTimeline._is_mask *)
+Definition g_is_mask_solid  : bool :=
+  true.
+
+(* calgebra/core.py: Union._is_mask *)
+Definition g_is_mask_union {TL : Type} (tl_is_mask : TL -> bool) (self_sources : list TL) : bool :=
+  (forallb (fun s => (tl_is_mask s)) self_sources).
+
+(* calgebra/core.py: Intersection._is_mask *)
+Definition g_is_mask_intersection {TL : Type} (tl_is_mask : TL -> bool) (self_sources : list TL) : bool :=
+  (forallb (fun s => (tl_is_mask s)) self_sources).
+
+(* calgebra/core.py: Filtered._is_mask *)
+Definition g_is_mask_filtered {TL : Type} (tl_is_mask : TL -> bool) (self_source : TL) : bool :=
+  (tl_is_mask self_source).
+
+(* calgebra/core.py: Difference._is_mask *)
+Definition g_is_mask_difference {TL : Type} (tl_is_mask : TL -> bool) (self_source : TL) : bool :=
+  (tl_is_mask self_source).
+
+(* calgebra/core.py: Complement._is_mask *)
+Definition g_is_mask_complement  : bool :=
+  true.
